@@ -226,7 +226,7 @@ theorem show_assembles_proof (i : Instr) (a : Nat) (eval : Arg → EvalOut) (loc
     have hb := branch_target a off (-16777216) 16777215 hlo hhi h2 h0 ht
     asm_simp; simp [lblA, hl, hn, hb]
   case ldrb d ad o =>
-    obtain ⟨x, hx, hax⟩ := he.mem ad o
+    obtain ⟨x, hx, hax⟩ := he.mem ad o rfl
     cases o with
     | imm v =>
       have hn := narrowI32_wf (v := v) hp
@@ -238,7 +238,7 @@ theorem show_assembles_proof (i : Instr) (a : Nat) (eval : Arg → EvalOut) (loc
       simp only [parts, irA]
       asm_simp; simp [hx, hax]; simp [addrOff, regl_regName, unwrapOff]
   case ldrh d ad o =>
-    obtain ⟨x, hx, hax⟩ := he.mem ad o
+    obtain ⟨x, hx, hax⟩ := he.mem ad o rfl
     cases o with
     | imm v =>
       have hn := narrowI32_wf (v := v) hp
@@ -250,7 +250,7 @@ theorem show_assembles_proof (i : Instr) (a : Nat) (eval : Arg → EvalOut) (loc
       simp only [parts, irA]
       asm_simp; simp [hx, hax]; simp [addrOff, regl_regName, unwrapOff]
   case str d ad o =>
-    obtain ⟨x, hx, hax⟩ := he.mem ad o
+    obtain ⟨x, hx, hax⟩ := he.mem ad o rfl
     cases o with
     | imm v =>
       have hn := narrowI32_wf (v := v) hp
@@ -262,7 +262,7 @@ theorem show_assembles_proof (i : Instr) (a : Nat) (eval : Arg → EvalOut) (loc
       simp only [parts, irA]
       asm_simp; simp [hx, hax]; simp [addrOff, regl_regName, unwrapOff]
   case strb d ad o =>
-    obtain ⟨x, hx, hax⟩ := he.mem ad o
+    obtain ⟨x, hx, hax⟩ := he.mem ad o rfl
     cases o with
     | imm v =>
       have hn := narrowI32_wf (v := v) hp
@@ -274,7 +274,7 @@ theorem show_assembles_proof (i : Instr) (a : Nat) (eval : Arg → EvalOut) (loc
       simp only [parts, irA]
       asm_simp; simp [hx, hax]; simp [addrOff, regl_regName, unwrapOff]
   case strh d ad o =>
-    obtain ⟨x, hx, hax⟩ := he.mem ad o
+    obtain ⟨x, hx, hax⟩ := he.mem ad o rfl
     cases o with
     | imm v =>
       have hn := narrowI32_wf (v := v) hp
@@ -286,17 +286,17 @@ theorem show_assembles_proof (i : Instr) (a : Nat) (eval : Arg → EvalOut) (loc
       simp only [parts, irA]
       asm_simp; simp [hx, hax]; simp [addrOff, regl_regName, unwrapOff]
   case ldrsb d ad o =>
-    obtain ⟨x, hx, hax⟩ := he.mem ad (.reg o)
+    obtain ⟨x, hx, hax⟩ := he.mem ad (.reg o) rfl
     simp only [irA, rA] at hx hax
     asm_simp; simp [hx, hax]; simp [addrOff, regl_regName]
   case ldrsh d ad o =>
-    obtain ⟨x, hx, hax⟩ := he.mem ad (.reg o)
+    obtain ⟨x, hx, hax⟩ := he.mem ad (.reg o) rfl
     simp only [irA, rA] at hx hax
     asm_simp; simp [hx, hax]; simp [addrOff, regl_regName]
   case ldr d ad o =>
     cases o with
     | reg r =>
-      obtain ⟨x, hx, hax⟩ := he.mem ad (.reg r)
+      obtain ⟨x, hx, hax⟩ := he.mem ad (.reg r) rfl
       simp only [irA, rA] at hx hax
       simp only [parts, irA]
       asm_simp; simp [hx, hax]; simp [addrOff, regl_regName, unwrapOff]
@@ -311,7 +311,7 @@ theorem show_assembles_proof (i : Instr) (a : Nat) (eval : Arg → EvalOut) (loc
         simp only [parts, h15, if_true]
         asm_simp; simp [lblA, hl, hn, hlit, hpc]
       · simp only [Printable, h15, if_false] at hp
-        obtain ⟨x, hx, hax⟩ := he.mem ad (.imm v)
+        obtain ⟨x, hx, hax⟩ := he.mem ad (.imm v) (by simp [memOf, h15])
         have hn := narrowI32_wf (v := v) hp
         simp only [irA, rA] at hx hax
         simp only [parts, h15, if_false, irA]
